@@ -7,9 +7,13 @@ class C07(EngineProp):
     lean_modules = ['RSocketModel.Props.C07']
     profiles = ['legal', 'legal', 'loss', 'cancel']
     technique = 'Lean 4 proof (invariant over all event sequences of the engine model) + event-level differential correspondence with the real endpoint'
-    level_text = 'see DESIGN.md §5 C07'
+    level_text = ('c07_grammar: for every event sequence from the initial state of either role (API calls, application signals, received frames of any kind, done-callbacks in any order, '
+                  'connection loss / stop_all_streams at any point) and every application object, the signals addressed to it are accepted by the automaton idle -on_subscribe-> active '
+                  '-on_next*-> active -terminal-> done, idle -future result/error-> done; consequences proved without the automaton: c07_nothing_after_terminal, c07_on_subscribe_first, '
+                  'c07_on_subscribe_once, c07_at_most_one_terminal, c07_cancelled_future_not_resolved, c07_pending_future_resolved_on_loss. Kernel-checked by induction over runs with the '
+                  'invariant Rel (phase vs. engine state) preserved by every entry point (step_good). The real endpoint is run on generated scripts and the model replayed on the observed '
+                  'entry-point sequence (event-level correspondence); the oracle checks the same grammar on the recorded application callbacks.')
     level_note = 'Trusted: Lean kernel + standard axioms; the order in which asyncio runs entry points is observed, not modelled; application objects are recorders.'
-    claimed = False   # until the Lean theorems land
     design_ref = '§5 C07'
     rule = ('scripts of 6..30 groups of 1..3 stimuli (local API calls, application publisher/future signals, protocol-legal peer frames incl. in-flight frames after a local '
             'cancel, connection loss by EOF or transport error) chosen adaptively from what is enabled, both roles; every entry point (API call, received frame, done-callback, loss) '
